@@ -51,7 +51,7 @@ func (q flagsQuery) Run() queryResult {
 	}
 
 	flags, err := streamFlags(resp.Body)
-	qr.value, qr.err = flags, err
+	qr.value, qr.err = flags, bodyError(ctx, err)
 	return qr
 }
 
